@@ -242,6 +242,9 @@ func Take() []Call {
 	return l
 }
 
+// Peek returns a copy of the log so far without clearing it.
+func Peek() []Call { return append([]Call{}, log...) }
+
 // Enter logs the call of instrumented function f with its projected arguments.
 func Enter(f int, args ...int) int {
 	if args == nil {
@@ -284,6 +287,9 @@ type Obs struct {
 	Err      int
 	Panic    string
 	ThunkNil bool
+	Pre      []Call // the log when the wrapper returned, before a returned function value was touched
+	Ret2     []int  // second invocation of a returned function value
+	Early    int    // calls logged before the returned function was called
 	Out      Sl
 	InB, InA Sl
 	LB, LA   []Inner
@@ -294,7 +300,7 @@ type Obs struct {
 }
 
 func NewObs(id int) *Obs {
-	return &Obs{Case: id, Calls: []Call{}, Ret: []int{}, Out: Sl{Es: []int{}}, InB: Sl{Es: []int{}}, InA: Sl{Es: []int{}},
+	return &Obs{Case: id, Calls: []Call{}, Pre: []Call{}, Ret: []int{}, Ret2: []int{}, Out: Sl{Es: []int{}}, InB: Sl{Es: []int{}}, InA: Sl{Es: []int{}},
 		LB: []Inner{}, LA: []Inner{}, SB: [][]int{}, SA: [][]int{}, Steps: []Step{}}
 }
 
